@@ -787,10 +787,18 @@ def _scalar_replacement(program, known: Set[str]) -> List[str]:
                             for x in ast.walk(t):
                                 if isinstance(x, ast.Name) and isinstance(x.ctx, ast.Store):
                                     stores.setdefault(x.id, []).append(None)
-                elif isinstance(n, (ast.For, ast.AsyncFor, ast.With, ast.AsyncWith, ast.NamedExpr, ast.AugAssign, ast.comprehension)):
-                    for x in ast.walk(n.target if hasattr(n, "target") else n):
-                        if isinstance(x, ast.Name) and isinstance(x.ctx, ast.Store):
+                elif isinstance(n, (ast.For, ast.AsyncFor, ast.NamedExpr, ast.AugAssign, ast.comprehension)):
+                    for x in ast.walk(n.target):
+                        if isinstance(x, ast.Name):
                             stores.setdefault(x.id, []).append(None)
+                elif isinstance(n, (ast.With, ast.AsyncWith)):
+                    for it in n.items:
+                        if it.optional_vars is not None:
+                            for x in ast.walk(it.optional_vars):
+                                if isinstance(x, ast.Name):
+                                    stores.setdefault(x.id, []).append(None)
+                elif isinstance(n, ast.ExceptHandler) and n.name:
+                    stores.setdefault(n.name, []).append(None)
             holder = {nm: ks[0] for nm, ks in stores.items() if ks and None not in ks and len(set(ks)) == 1}
             a_ = fi.node.args
             for p_ in a_.posonlyargs + a_.args + a_.kwonlyargs:
